@@ -184,6 +184,39 @@ V_HARNESS(h_pfc_step)
 #ifndef UNREL
 #define UNREL 1		/* interleave unrelated packets */
 #endif
+/* One Hamming 8/4 protected byte is hit by bit errors: sent code word XOR DMG_MASK.  DMG_MASK with two bits set: not decodable (the
+ * code has distance 4: every double error is detected - C03 decides that for the real table and all 256 values); one bit set:
+ * corrected, nothing may change.  DMG_KIND 0 none; 1 byte DMG_BYTE of fed packet DMG_F (page header: bytes 0..7 = address, page
+ * number, S1..S4; data packet: bytes 0..2 = address, block pointer); 2 nibble DMG_NIB of the structure header of block DMG_BLK;
+ * 3 the block separator of block DMG_BLK.  Place AND mask come from the grid: the decoded value of such a byte steers the demux (a
+ * symbolic value leaves symex with a symbolic continuity index / block size on the branch the solver knows to be infeasible: no
+ * verdict in 7 min per instance, measured).  Symbolic: block bytes, header text, unrelated packets. */
+#ifndef DMG_KIND
+#define DMG_KIND 0
+#endif
+#ifndef DMG_F
+#define DMG_F 0
+#endif
+#ifndef DMG_BYTE
+#define DMG_BYTE 4
+#endif
+#ifndef DMG_BLK
+#define DMG_BLK 1
+#endif
+#ifndef DMG_NIB
+#define DMG_NIB 0
+#endif
+#ifndef DMG_MASK
+#define DMG_MASK 0x21
+#endif
+#define DMG_BITS (((DMG_MASK) & 1) + (((DMG_MASK) >> 1) & 1) + (((DMG_MASK) >> 2) & 1) + (((DMG_MASK) >> 3) & 1) \
+		  + (((DMG_MASK) >> 4) & 1) + (((DMG_MASK) >> 5) & 1) + (((DMG_MASK) >> 6) & 1) + (((DMG_MASK) >> 7) & 1))
+/* FOREIGN_HDR 1: before every page header of ours but the first, the header of ANOTHER page of the same magazine is fed (what a
+ * serial mode transmission looks like: other pages lie between two transmissions of ours); 2: the header of a page of another
+ * magazine is fed right after every page header of ours (parallel mode, C11 = 0: it does not end our page, EN 300 706 9.3.1.3). */
+#ifndef FOREIGN_HDR
+#define FOREIGN_HDR 0
+#endif
 #define NDP (NPAGES * PPP)		/* data packets */
 #define CAP (NDP * 39)
 #define NFEED (NPAGES * (PPP + 1))
@@ -195,15 +228,27 @@ static const unsigned b_pad[NBMAX] = { PAD0, PAD1, PAD2, PAD3 };
 static uint8_t b_data[NBMAX][SZMAX]; static unsigned b_app[NBMAX];
 static unsigned b_first[NBMAX], b_last[NBMAX];	/* data packet holding the BS / the last block byte */
 static unsigned b_endoff[NBMAX];			/* offset 0..38 of the last block byte in its packet */
+static unsigned b_bspos[NBMAX];				/* position of the block separator in the data stream */
 static uint8_t p_stream[CAP]; static unsigned p_bp[NDP]; static uint8_t p_seen[NDP];
 
 static struct { unsigned app, size, stream; vbi_pgno pgno; uint8_t d[SZMAX]; } pcb_log[NBMAX];
+static unsigned pexp_n, pexp_idx[NBMAX];	/* oracle, computed before the first packet is fed: blocks that must be delivered, in order */
 
 static vbi_bool pfc_seq_cb(vbi_pfc_demux *dx, void *ud, const vbi_pfc_block *b)
 {
   unsigned i;
   V_ASSERT(dx == &PX && ud == (void *) &pcb_n && b == &PX.block, "pfc_cb_args");
   V_ASSERT(b->block_size >= 1 && b->block_size <= 2047, "pfc_cb_size_1_2047");
+  {
+    /* every delivery is the next block of the oracle's list (size and application id are concrete in every run).  Checked here and
+       then assumed: a demux that has framed a block wrongly goes on reading SYMBOLIC block bytes as separators and structure
+       headers, and symex would follow every such path to the end of the run (no verdict in 600 s on the seeded change) */
+    int as_sent = 0;
+    for (i = 0; i < NBMAX; i++)
+      if (i == pcb_n && i < pexp_n) as_sent = (b->block_size == b_size[pexp_idx[i]] && b->application_id == b_app[pexp_idx[i]]);
+    V_ASSERT(as_sent, "pfc_delivery_is_the_next_intact_block");
+    V_ASSUME(as_sent);
+  }
   if (pcb_n < NBMAX) {
     pcb_log[pcb_n].app = b->application_id; pcb_log[pcb_n].size = b->block_size;
     pcb_log[pcb_n].stream = b->stream; pcb_log[pcb_n].pgno = b->pgno;
@@ -225,7 +270,7 @@ static int pfc_layout(void)
       while ((pos % 39) % 3) { p_stream[pos++] = ref_ham8(C15_FILL); if (pos >= CAP) return 0; }
     if (!p_seen[pos / 39]) { p_seen[pos / 39] = 1; p_bp[pos / 39] = (pos % 39) / 3; }
     if (pos + 5 + b_size[b] > CAP) return 0;
-    b_first[b] = pos / 39;
+    b_first[b] = pos / 39; b_bspos[b] = pos;
     p_stream[pos++] = ref_ham8(C15_BS);
     for (i = 0; i < 4; i++) p_stream[pos++] = ref_ham8((sh >> (4 * i)) & 15);
     for (i = 0; i < b_size[b]; i++) p_stream[pos++] = b_data[b][i];
@@ -237,9 +282,9 @@ static int pfc_layout(void)
 
 V_HARNESS(h_pfc_seq)
 {
-  unsigned f, b, i, exp_n = 0, e_idx[NBMAX]; const int drop = DROP; vbi_bool r;
+  unsigned f, b, i, exp_n = 0, *e_idx = pexp_idx; const int drop = DROP; vbi_bool r;
   const vbi_pgno pgno = (vbi_pgno) ((((MAG) ? (MAG) : 8) << 8) | (PG));
-  uint8_t pkt[42], unrel[42];
+  uint8_t pkt[42], unrel[42], dmg_v; int dmg_bad = 0; unsigned dmg_feed = NFEED, dmg_gp = 0, dmg_before = NBMAX;
   V_INIT();
 #ifdef VERIF_CBMC
   c15_blk = PX.block.block;
@@ -248,6 +293,19 @@ V_HARNESS(h_pfc_seq)
   V_ASSERT(r && pfc_inv(&PX), "pfc_init_invariant");
   for (b = 0; b < NB; b++) { b_app[b] = (APP0 + 7 * b) & 31; in_bytes(b_data[b], SZMAX); }
   V_ASSUME(pfc_layout());
+  V_ASSUME(DMG_KIND == 0 || DMG_BITS == 1 || DMG_BITS == 2);
+  if (DMG_KIND == 2 || DMG_KIND == 3) {		/* structure header nibble / block separator of block DMG_BLK */
+    unsigned q = b_bspos[DMG_BLK] + (DMG_KIND == 2 ? 1 + (DMG_NIB) : 0);
+    int d0 = ref_unham8(p_stream[q]), d;
+    V_ASSUME(DMG_BLK < NB && drop < 0);
+    dmg_v = p_stream[q] ^ (uint8_t) (DMG_MASK); d = ref_unham8(dmg_v);
+    V_ASSERT(DMG_BITS == 2 ? d < 0 : d == d0, "ref_hamming_double_error_detected_single_corrected");
+    p_stream[q] = dmg_v; dmg_bad = d < 0;
+    /* the demux looks at the structure header when its 4th byte has arrived, at a separator when it reaches it */
+    dmg_gp = (b_bspos[DMG_BLK] + (DMG_KIND == 2 ? 4 : 0)) / 39;
+    dmg_feed = dmg_gp / PPP * (PPP + 1) + 1 + dmg_gp % PPP;
+    dmg_before = DMG_BLK;			/* blocks 0 .. DMG_BLK-1 were complete before */
+  }
 #ifdef KNOWN_PFC_BLOCK_END_OVERREAD
   /* defect (obligation pfc_block_end_overread): a block whose last byte is the last byte of a packet makes
      _vbi_pfc_demux_decode read buffer[42] */
@@ -261,6 +319,30 @@ V_HARNESS(h_pfc_seq)
       V_ASSUME(!(b_size[b] >= 1 && b_first[b] < gd && b_last[b] >= gd));
     }
 #endif
+  if (DMG_KIND == 1) {				/* byte DMG_BYTE of fed packet DMG_F (applied below, when the packet is built) */
+    unsigned g = (unsigned) (DMG_F) / (PPP + 1), j = (unsigned) (DMG_F) % (PPP + 1);
+    dmg_bad = (DMG_BITS == 2); dmg_feed = DMG_F; dmg_gp = (j == 0) ? g * PPP : g * PPP + (j - 1);
+    dmg_before = NBMAX;				/* decided by the packet: blocks that ended in earlier packets */
+  }
+  /* oracle (before anything is fed: the callback compares every delivery with it): the blocks received completely, in order */
+  for (b = 0; b < NB; b++) {
+    int ok = b_size[b] >= 1;
+    if (drop >= 0) {
+      unsigned g = (unsigned) drop / (PPP + 1), j = (unsigned) drop % (PPP + 1);
+      unsigned lost_from = (j == 0) ? g * PPP : g * PPP + (j - 1);	/* first data packet not processed */
+      unsigned resume = (g + 1) * PPP;					/* first data packet of the next page */
+      if (!(b_last[b] < lost_from || b_first[b] >= resume)) ok = 0;
+    }
+    if (DMG_KIND && dmg_bad) {
+      /* the block hit (or every block touching the packet hit) is discarded; blocks completed before are delivered; delivery
+         resumes with the first block that starts on the page after the one the error was noticed on */
+      unsigned resume = (dmg_gp / PPP + 1) * PPP;
+      int before = (dmg_before < NBMAX) ? (b < dmg_before) : (b_last[b] < dmg_gp);
+      if (!(before || b_first[b] >= resume)) ok = 0;
+    }
+    if (ok) e_idx[exp_n++] = b;
+  }
+  pexp_n = exp_n;
   for (f = 0; f < NFEED; f++) {
     unsigned g = f / (PPP + 1), j = f % (PPP + 1);
     if (UNREL) {	/* unrelated traffic: a packet 1..25 of another magazine, or a packet 26..31 of ours; body arbitrary */
@@ -268,6 +350,14 @@ V_HARNESS(h_pfc_seq)
       if (um == (MAG) && up <= 25) um = ((MAG) + 1) & 7;
       in_bytes(unrel, 42);
       unrel[0] = ref_ham8(um | ((up & 1) << 3)); unrel[1] = ref_ham8(up >> 1);
+      r = vbi_pfc_demux_feed(&PX, unrel);
+      V_ASSERT(r, "pfc_unrelated_returns_true");
+    }
+    if ((FOREIGN_HDR == 1 && j == 0 && g > 0) || (FOREIGN_HDR == 2 && j == 1)) {
+      unsigned fm = (FOREIGN_HDR == 1) ? (MAG) : (((MAG) + 1) & 7), fp = (FOREIGN_HDR == 1) ? ((PG) ^ 0x01) : (PG);
+      in_bytes(unrel, 42);			/* sub-code, control bits, header text: arbitrary */
+      unrel[0] = ref_ham8(fm); unrel[1] = ref_ham8(0);
+      unrel[2] = ref_ham8(fp & 15); unrel[3] = ref_ham8(fp >> 4);
       r = vbi_pfc_demux_feed(&PX, unrel);
       V_ASSERT(r, "pfc_unrelated_returns_true");
     }
@@ -286,23 +376,24 @@ V_HARNESS(h_pfc_seq)
       pkt[2] = ref_ham8(p_bp[gp]);
       for (i = 0; i < 39; i++) pkt[3 + i] = p_stream[gp * 39 + i];
     }
+    if (DMG_KIND == 1 && f == (DMG_F)) {
+      int d0 = ref_unham8(pkt[DMG_BYTE]), d;
+      V_ASSUME((DMG_F) < NFEED && (DMG_BYTE) < (j == 0 ? 8 : 3) && drop < 0);
+      dmg_v = pkt[DMG_BYTE] ^ (uint8_t) (DMG_MASK); d = ref_unham8(dmg_v);
+      V_ASSERT(DMG_BITS == 2 ? d < 0 : d == d0, "ref_hamming_double_error_detected_single_corrected");
+      pkt[DMG_BYTE] = dmg_v;
+    }
     if ((int) f != drop) {
       r = vbi_pfc_demux_feed(&PX, pkt);
-      V_ASSERT(r, "pfc_clean_packet_returns_true");
+      if (DMG_KIND && dmg_bad && f == dmg_feed) {
+        /* documented: "FALSE if the packet contained uncorrectable errors" */
+        V_ASSERT(!r, "pfc_uncorrectable_packet_returns_false");
+        V_REACH("refused");
+      } else V_ASSERT(r, "pfc_clean_packet_returns_true");
       V_ASSERT(pfc_inv(&PX), "pfc_seq_invariant");
     }
   }
-  /* oracle: the blocks that were received completely, in order, byte exact */
-  for (b = 0; b < NB; b++) {
-    int ok = b_size[b] >= 1;
-    if (drop >= 0) {
-      unsigned g = (unsigned) drop / (PPP + 1), j = (unsigned) drop % (PPP + 1);
-      unsigned lost_from = (j == 0) ? g * PPP : g * PPP + (j - 1);	/* first data packet not processed */
-      unsigned resume = (g + 1) * PPP;					/* first data packet of the next page */
-      if (!(b_last[b] < lost_from || b_first[b] >= resume)) ok = 0;
-    }
-    if (ok) e_idx[exp_n++] = b;
-  }
+  if (DMG_KIND && !dmg_bad) V_REACH("corrected");
   V_ASSERT(pcb_n == exp_n, "pfc_delivered_exactly_the_intact_blocks");
   for (i = 0; i < NBMAX; i++) if (i < exp_n && i < pcb_n) {
     unsigned k; b = e_idx[i];
